@@ -134,3 +134,61 @@ def _split_cases():
 
 
 contract('bycycle.utils.dataframes.split_samples_df', cases=_split_cases(), modifies=['df_features'])
+
+
+# ------------------------------------------------------------------------------------------------ flatten_dfs (C18), group level
+# Tables and labels are opaque values.  flatten_dfs writes the label column INTO each table it is given (documented use:
+# the tables are the function's to label) and returns their row-wise concatenation in list order (row-major for 2-D lists).
+from vf.spec import form as _form                      # noqa: E402
+from vf.engine import _opq as _opq_                    # noqa: E402
+from vf import grid as _G                              # noqa: E402
+
+
+@_form('concat_of')
+def f_concat_of(E, node):
+    lst = E.eval(node.args[0])
+    return _opq_(_G.CONCAT_ROWS(_G.rows_term(E, lst)))
+
+
+@_form('with_col')
+def f_with_col(E, node):
+    import z3
+    from vf.values import str_code, Z as _Z, STR as _STR
+    tb, key, val = [E.eval(a) for a in node.args]
+    kt = z3.IntVal(str_code(key)) if isinstance(key, str) else key.t
+    return _opq_(_G.WITH_COL(tb.t, kt, val.t))
+
+
+def _flatten_cases():
+    out = []
+    T1, L1 = ('grid', 1, False, 'list', 'table'), ('grid', 1, False, 'list')
+    T2, L2 = ('grid', 2, False, 'list', 'table'), ('grid', 2, False, 'list')
+    out.append(dict(
+        label='1d',
+        params={'dfs_features': T1, 'labels': L1, 'column_name': ('const', 'Label')},
+        raises={'ValueError': "len(labels) != len(dfs_features)"},
+        ensures=["result == concat_of(dfs_features)",
+                 "forall(i, 0 <= i < len(dfs_features), dfs_features[i] == with_col(old(dfs_features)[i], column_name, labels[i]))"],
+        loops={1: dict(index='k', mutates=['dfs_features'], elementwise=True, invariant=[
+            "forall(i, 0 <= i < k, dfs_features[i] == with_col(old(dfs_features)[i], column_name, labels[i]))",
+            "forall(i, k <= i < len(dfs_features), dfs_features[i] == old(dfs_features)[i])"])}))
+    N0, N1 = "dfs_features.shape[0]", "dfs_features.shape[1]"
+    # (a 2-D label list is used in row-major order whatever its own shape: only the total count is checked)
+    for ll, lt, lab in (('2d-labels', L2, "flat(labels)[i * %s + j]" % N1), ('flat-labels', L1, "labels[i * %s + j]" % N1)):
+        nlab = "labels.shape[0] * labels.shape[1]" if ll == '2d-labels' else "len(labels)"
+        out.append(dict(
+            label='2d,' + ll,
+            params={'dfs_features': T2, 'labels': lt, 'column_name': ('const', 'Label')},
+            raises={'ValueError': "%s != %s * %s" % (nlab, N0, N1)},
+            ensures=["result == concat_of(flat(dfs_features))",
+                     "forall((i, j), 0 <= i < %s and 0 <= j < %s, dfs_features[i][j] == with_col(old(dfs_features)[i][j], column_name, %s))"
+                     % (N0, N1, lab)],
+            loops={2: dict(index='k', mutates=['dfs_features'], invariant=[
+                "forall((i, j), 0 <= i < %s and 0 <= j < %s and i * %s + j < k, dfs_features[i][j] == "
+                "with_col(old(dfs_features)[i][j], column_name, labels[i * %s + j]))" % (N0, N1, N1, N1),
+                "forall((i, j), 0 <= i < %s and 0 <= j < %s and i * %s + j >= k, dfs_features[i][j] == old(dfs_features)[i][j])"
+                % (N0, N1, N1)])}))
+    return out
+
+
+contract('bycycle.utils.dataframes.flatten_dfs', cases=_flatten_cases(), modifies=['dfs_features'])
